@@ -275,6 +275,7 @@ Inductive action :=
   | AKill                                (* kill: every background command gets a signal *)
   | AKillWait                            (* kill, then wait: the statuses are checked as by skip *)
   | AWait                                (* wait: no signal is sent; blocks on a command that is still running *)
+  | AExec (neg : bool) (prog : name)     (* [!] exec prog ...: a foreground command that succeeds when it can be run *)
   | AIfExec (neg : bool) (prog : name) (a : action).  (* [exec:prog] a   /   [!exec:prog] a *)
 
 Record script := {
@@ -508,6 +509,12 @@ Fixpoint exec_action (cfg : config) (s : nat) (c : cache) (ss : sstate) (a : act
       let '(waited, ok) := skip_wait (bgl ss) in
       let ss1 := add_obs ss (ev_int_all (bgl ss) ++ waited) in
       if ok then (c, set_bgl ss1 [], OCont) else (c, ss1, OFail)
+  | AExec neg prog =>
+      (* buildExecCmd: a bare name is looked up on the script's own PATH (execpath.Look with ts.Getenv),
+         never on the PATH of the test process *)
+      if look cfg s (tr ss) (path_value (senv ss)) prog
+      then (c, ss, if neg then OFail else OCont)
+      else (c, ss, if neg then OCont else OFail)
   | AWait =>
       let '(waited, res) := wait_list (signalled (obs ss)) (bgl ss) in
       let ss1 := add_obs ss waited in
